@@ -22,6 +22,7 @@ substance is here, on the real code (metamorphic runs on fitted models and tiny 
 """
 from __future__ import annotations
 
+import json
 import math
 import os
 import random
@@ -592,7 +593,7 @@ def case_personalize(chk, env, name, seed, algos):
             permd, tq = personalize(env, name, df, pids, algo_name, seed, tape=tape, transform=tr, **kw)
         except Exception as e:  # noqa
             chk.impl_failure(case, f"personalize failed: {s3.err_class(env, e)}: {str(e)[:200]}")
-            chk.case(("p", name, seed, algo_name), nontrivial=False, tags={"kind": "personalize", "outcome": "error"})
+            chk.case(("p", name, seed, algo_name, json.dumps(kw, sort_keys=True)), nontrivial=False, tags={"kind": "personalize", "outcome": "error"})
             continue
         if list(base) != list(ids):
             fails.append(f"individual parameters are keyed {list(base)} for the cohort {ids}")
@@ -625,7 +626,7 @@ def case_personalize(chk, env, name, seed, algos):
                     break
         for f in fails[:3]:
             chk.impl_failure(case, f)
-        chk.case(("p", name, seed, algo_name), nontrivial=True, sample=case if len(chk.samples) < 4 else None,
+        chk.case(("p", name, seed, algo_name, json.dumps(kw, sort_keys=True)), nontrivial=True, sample=case if len(chk.samples) < 4 else None,
                  tags={"kind": "personalize", "algo": algo_name, "model": name, "outcome": "ok" if not fails else "fail"})
 
 
@@ -666,7 +667,10 @@ def case_njobs(chk, env, name, seed, hash_seeds):
     ids = rng.sample(all_ids, 4)
     case0 = {"kind": "n_jobs", "model": name, "seed": seed, "ids": ids}
     try:
-        ref, _ = personalize(env, name, df, ids, "scipy_minimize", seed, n_jobs=1)
+        budget = {} if rng.random() < 0.5 else {"use_jacobian": False,
+                                                "custom_scipy_minimize_params": {"method": "Powell", "options": {"maxiter": 6}}}
+        case0["budget"] = budget
+        ref, _ = personalize(env, name, df, ids, "scipy_minimize", seed, n_jobs=1, **budget)
     except Exception as e:  # noqa
         chk.impl_failure(case0, f"personalize failed: {s3.err_class(env, e)}: {str(e)[:200]}")
         return
@@ -678,7 +682,7 @@ def case_njobs(chk, env, name, seed, hash_seeds):
             get_reusable_executor(kill_workers=True).shutdown(wait=True)
             os.environ["PYTHONHASHSEED"] = str(hs)
             try:
-                got, _ = personalize(env, name, df, ids, "scipy_minimize", seed, n_jobs=2)
+                got, _ = personalize(env, name, df, ids, "scipy_minimize", seed, n_jobs=2, **budget)
             except Exception as e:  # noqa
                 chk.impl_failure(case, f"personalize n_jobs=2 failed: {s3.err_class(env, e)}: {str(e)[:200]}")
                 continue
@@ -1525,7 +1529,11 @@ def compare_model(chk, lines, expect):
 
 
 ENV = [None]
-ALGOS = [("scipy_minimize", {"n_jobs": 1}), ("mode_posterior", {"n_iter": 40}), ("mean_posterior", {"n_iter": 40})]
+ALGOS = [("scipy_minimize", {"n_jobs": 1}), ("mode_posterior", {"n_iter": 40}), ("mean_posterior", {"n_iter": 40}),
+         # an iteration budget at which some individuals converge and others are cut short: whatever the optimiser does about a
+         # non-converged individual must not reach the others
+         ("scipy_minimize", {"n_jobs": 1, "use_jacobian": False,
+                             "custom_scipy_minimize_params": {"method": "Powell", "options": {"maxiter": 6}}})]
 P_MODELS = ["logistic_diag_noise", "linear_scalar_noise", "joint_diagonal", "univariate_logistic", "univariate_joint",
             "logistic_binary", "shared_speed_logistic_diag_noise"]
 
